@@ -136,11 +136,55 @@ def expected_tests(scenario):
     return expected
 
 
+def expected_combinations(scenario):
+    """(flat test, {vm: variant token}) pairs that at least one worker can run (under-approximated)."""
+    import itertools
+    suite_path = suite_path_of(scenario)
+    table = worker_table(suite_path)
+    variants = vm_variants(suite_path)
+    tests = selected_tests(suite_path, scenario["tests"])
+    workers = [table[w] for w in scenario["nets"].split() if w in table]
+    default_vm = None
+    for d in _dicts(suite_path, "guest-base.cfg"):
+        default_vm = d.get("main_vm")
+        break
+    out = []
+    for test in tests:
+        vms = test["vms"] or [test.get("main_vm") or default_vm]
+        setless = strip_set(test["name"])
+        for worker in workers:
+            per_vm = [compatible_variants(test, vm, worker, scenario["vm_strs"], variants) for vm in vms]
+            if not all(per_vm):
+                continue
+            for combo in itertools.product(*per_vm):
+                tokens = {vm: variant_token(v) for vm, v in zip(vms, combo)}
+                names = dict(zip(vms, combo))
+                # restrictions that one vm's variant puts on another vm (conditional blocks)
+                ok = True
+                for vm in vms:
+                    ds = compose(suite_path, vm, tokens[vm], "all.." + setless)
+                    d = next((x for x in ds if strip_set(flat_part(x["name"])) == setless), None)
+                    if d is None:
+                        ok = False
+                        break
+                    for other in vms:
+                        only = [t.strip() for t in d.get(f"only_{other}", "").split(",") if t.strip()]
+                        no = [t.strip() for t in d.get(f"no_{other}", "").split(",") if t.strip()]
+                        if only and not any(token_matches(t, names[other]) for t in only):
+                            ok = False
+                        if no and any(token_matches(t, names[other]) for t in no):
+                            ok = False
+                if ok and (test["name"], tokens) not in out:
+                    out.append((test["name"], tokens))
+    return out
+
+
 def context_for(prop, history):
     scenario = history["scenario"]
     if prop == "C02":
         try:
-            return {"expected_tests": {"*": expected_tests(scenario)}}
+            return {"expected_tests": {"*": expected_tests(scenario)},
+                    "expected_combos": expected_combinations(scenario)}
         except Exception as error:  # resolver problems must never become verdicts
             raise RuntimeError(f"resolver failed: {error!r}")
     if prop == "C08":
